@@ -115,6 +115,29 @@ DEFERRED = {SCHEMA + '::Load', THES + '::Load'}
 SPECIAL_MEMBERS_OK = 'copy/move members rebuild or invalidate the graph themselves'
 
 
+def deferred_rule(db, r2):
+    """C07 r2 (shared with C12 r13): a caller of a deferred loader reaches UpdateState on every path to a successful return"""
+    loaders = {SCHEMA + '::Load', THES + '::Load', S + 'RSCore::Load', S + 'RSForm::Load', S + 'RSModel::Load'}
+    upd = {SCHEMA + '::UpdateState', THES + '::UpdateState', S + 'RSCore::UpdateState', S + 'RSForm::UpdateState', S + 'RSModel::UpdateState', S + 'RSModel::FinalizeLoadingCore'}
+    for f in db.functions:
+        if f.rec.get('dependent') or not f.has_cfg():
+            continue
+        sites = call_sites(f, lambda n: n.get('cs') in loaders)
+        if not sites:
+            continue
+        inst = 'caller:' + '::'.join(f.name.split('::')[-2:])
+        if f.name in loaders:
+            r2.ok(inst, 'forwarding loader (stays dirty by contract)', '%s:%d' % (f.file, f.line), nontrivial=False)
+            continue
+        us = [p for p, _ in call_sites(f, lambda n: n.get('cs') in upd)]
+        exits = success_exits(f, failure_literals=())
+        bad = paths_avoiding(f, [p for p, _ in sites], us, exits)
+        if bad:
+            r2.violation(inst, f.loc(sites[0][1]), '%s loads records with the deferred loader and can return without UpdateState: parse results and resolved texts are missing or stale' % f.name.split('::')[-1])
+        else:
+            r2.ok(inst, 'UpdateState reached on every path after loading', '%s:%d' % (f.file, f.line))
+
+
 def check(db, rep):
     rep.explanation = ('Cache-refresh discipline of Schema and Thesaurus: each kind of storage write must be followed, on every path to a success exit, by the refresh families it requires; '
                        'deferred loaders are a typestate (dirty until UpdateState); re-analysis walks dependency order without early exits.')
@@ -197,25 +220,7 @@ def refresh_rule(db, rep, r1, M, classes):
 def _rest(db, rep, M):
     # ------------------------------------------------------------------ r2
     r2 = rep.rule('r2', 'DEFERRED: every caller of a deferred loader either is a loader itself or reaches UpdateState before returning', 3)
-    loaders = {SCHEMA + '::Load', THES + '::Load', S + 'RSCore::Load', S + 'RSForm::Load', S + 'RSModel::Load'}
-    upd = {SCHEMA + '::UpdateState', THES + '::UpdateState', S + 'RSCore::UpdateState', S + 'RSForm::UpdateState', S + 'RSModel::UpdateState', S + 'RSModel::FinalizeLoadingCore'}
-    for f in db.functions:
-        if f.rec.get('dependent') or not f.has_cfg():
-            continue
-        sites = call_sites(f, lambda n: n.get('cs') in loaders)
-        if not sites:
-            continue
-        inst = 'caller:' + '::'.join(f.name.split('::')[-2:])
-        if f.name in loaders:
-            r2.ok(inst, 'forwarding loader (stays dirty by contract)', '%s:%d' % (f.file, f.line), nontrivial=False)
-            continue
-        us = [p for p, _ in call_sites(f, lambda n: n.get('cs') in upd)]
-        exits = success_exits(f, failure_literals=())
-        bad = paths_avoiding(f, [p for p, _ in sites], us, exits)
-        if bad:
-            r2.violation(inst, f.loc(sites[0][1]), '%s loads records with the deferred loader and can return without UpdateState: parse results and resolved texts are missing or stale' % f.name.split('::')[-1])
-        else:
-            r2.ok(inst, 'UpdateState reached on every path after loading', '%s:%d' % (f.file, f.line))
+    deferred_rule(db, r2)
 
     # ------------------------------------------------------------------ r3
     r3 = rep.rule('r3', 'ORDER: re-analysis routines walk the whole dependency order without early exit; lazy graphs rebuild completely; OnTermChange refreshes terms and definitions of the whole closure', 7)
